@@ -64,7 +64,12 @@ def generate(seed, tier, opts):
     d = Decider(wseed, "crash-workload")
     workload = d.weighted("kind", [("solve", 5), ("edit", 4), ("build", 2), ("deepcopy", 1), ("product-inplace", 1), ("product-new", 1)])
     real = d.chance("real", float(opts.get("real_frac", 0.0))) and workload in ("solve", "edit", "build")
-    th, op = cards.gen_cards(d, real=real, max_targets=2 if real else 3)
+    if real:
+        # crash consistency does not depend on the physics: keep the real kernels cheap (LO, one target)
+        th = cards.gen_theory(d, real=True, order=1)
+        op = cards.gen_operator(d, th, real=True, max_targets=1)
+    else:
+        th, op = cards.gen_cards(d, real=False, max_targets=3)
     nx = len(op["xgrid"])
     ops = []
     if workload == "edit":
